@@ -49,12 +49,12 @@ def collectLine : List LItem → List LItem × List LItem × Bool
 def trimFirst (t : Tok) : Tok :=
   { t with txt := if hasNl t.txt then uptoLastNl t.txt else [] }
 
-/-- NB: the position is advanced whether or not the token is `fix` (as coded). -/
+/-- the position of a position-counting token advances by the removed prefix;
+    a fixed token keeps its position -/
 def trimLast (t : Tok) : Tok :=
-  if hasNl t.txt then
-    let k := (beforeFirstNl t.txt).length + 1
-    { t with txt := afterFirstNl t.txt, pos := t.pos + k }
-  else { t with txt := [], pos := t.pos + t.txt.length }
+  let k := if hasNl t.txt then (beforeFirstNl t.txt).length + 1 else t.txt.length
+  { t with txt := if hasNl t.txt then afterFirstNl t.txt else [],
+           pos := if t.fix then t.pos else t.pos + k }
 
 def linesLoop : Nat → List LItem → List Tok → Option (List Tok)
   | _, [], out => some out
